@@ -8,8 +8,8 @@
    The theorems below restate C11 / C03 / C10 about  run_top gen_solver_top  by rewriting with these. *)
 From Coq Require Import ZArith List Bool Lia.
 From BL Require Import Base.Ops Base.Laws Model.Solver Model.SolverArray Model.SolverTop Proofs.Plumbing Proofs.SpecProofs
-  Proofs.C03Proofs Proofs.C10Proofs Proofs.ArrayRefine Proofs.SolverTopProofs.
-From BL Require Properties.C11Array Properties.C10.
+  Proofs.C03Proofs Proofs.C04Proofs Proofs.C10Proofs Proofs.ArrayRefine Proofs.SolverTopProofs.
+From BL Require Properties.C11Array Properties.C10 Properties.C04.
 From Gen Require Import GenSolverTop SolverTopBridge.
 Import ListNotations.
 
@@ -122,4 +122,90 @@ Proof.
   destruct (solve_top_ok O t r E) as (g' & Hg' & _ & _ & _ & Hf & _). rewrite Hg in Hg'. injection Hg' as <-.
   rewrite Hf. apply (C11Array.C11_array_footprint_mass O L); try assumption.
   cbn [top_args a_single]. rewrite Hpr. reflexivity.
+Qed.
+
+(* a request that Model/Solver.solve accepts (and whose precision is single or double) is accepted by the translated code *)
+Lemma code_accepts (O : Ops) (t : targs O) rs :
+  solve O (top_args O t) = inl rs -> bad_prec O t = false -> exists r, run_top O gen_solver_top t = inl r.
+Proof.
+  rewrite bridge_solver_top. unfold solve, solve_top.
+  destruct (geometry O (top_args O t)) as [g|e]; [|discriminate]. intros _ ->. eexists; reflexivity.
+Qed.
+
+Lemma code_result_prec (O : Ops) (t : targs O) r : run_top O gen_solver_top t = inl r -> bad_prec O t = false.
+Proof. rewrite bridge_solver_top. intros E. destruct (solve_top_ok O t r E) as (g & _ & Hp & _). exact Hp. Qed.
+
+(* C10 about the translated code: slot k of a call with ANY level list (unsorted, repeated, ...) equals, cell by cell, the
+   single slot of the call of the translated code with the SCALAR level levels[k] (which goes through the
+   np.ndim(levels) == 0 normalisation), both fields, both branches, both precisions *)
+Theorem code_C10_slice_is_level (O : Ops) (L : Laws O) (t : targs O) r k :
+  wf O (top_args O t) -> run_top O gen_solver_top t = inl r ->
+  (k < length (a_levels O (top_args O t)))%nat ->
+  (0 < a_nlx O (top_args O t))%nat -> (0 < a_nly O (top_args O t))%nat ->
+  let lv := nth k (a_levels O (top_args O t)) 0%nat in
+  exists r1, run_top O gen_solver_top (mkTArgs O (t_a O t) (LvScalar lv) (t_prec O t)) = inl r1 /\
+    forall j i, (j < length (a_q0 O (top_args O t)))%nat -> (i < length (hd [] (a_q0 O (top_args O t))))%nat ->
+      ar_at O (tr_conc O r) (Z.of_nat k) (Z.of_nat j) (Z.of_nat i) = ar_at O (tr_conc O r1) 0%Z (Z.of_nat j) (Z.of_nat i) /\
+      ar_at O (tr_flx O r) (Z.of_nat k) (Z.of_nat j) (Z.of_nat i) = ar_at O (tr_flx O r1) 0%Z (Z.of_nat j) (Z.of_nat i).
+Proof.
+  intros Hwf E Hk Hlx Hly. cbv zeta.
+  set (lv := nth k (a_levels O (top_args O t)) 0%nat).
+  set (t1 := mkTArgs O (t_a O t) (LvScalar lv) (t_prec O t)).
+  destruct (code_C11_refines_spec O L t r Hwf E) as (rs & Hs & _ & _ & _ & Hcell).
+  pose proof (C10.C10_slice_is_level O L (top_args O t) rs k Hwf Hs Hk) as H10. cbv zeta in H10.
+  destruct H10 as (rs1 & Hs1 & _ & _ & _ & _ & Hsl).
+  change (with_levels O (top_args O t) [nth k (a_levels O (top_args O t)) 0%nat]) with (top_args O t1) in Hs1.
+  assert (Hp1 : bad_prec O t1 = false) by (exact (code_result_prec O t r E)).
+  destruct (code_accepts O t1 rs1 Hs1 Hp1) as [r1 E1]. exists r1. split; [exact E1|].
+  assert (Hwf1 : wf O (top_args O t1)) by (exact (wf_with_levels O L (top_args O t) [lv] Hwf)).
+  destruct (code_C11_refines_spec O L t1 r1 Hwf1 E1) as (rs1' & Hs1' & _ & _ & _ & Hcell1).
+  rewrite Hs1 in Hs1'. injection Hs1' as <-.
+  intros j i Hj Hi.
+  destruct (Hcell Hlx Hly k j i Hk Hj Hi) as [Hc Hf].
+  destruct (Hsl j i Hj Hi) as [Hc' Hf'].
+  assert (H0 : (0 < length (a_levels O (top_args O t1)))%nat) by (cbn; lia).
+  destruct (Hcell1 Hlx Hly 0%nat j i H0 Hj Hi) as [Hc1 Hf1].
+  change (Z.of_nat 0) with 0%Z in Hc1, Hf1.
+  rewrite Hc, Hf, Hc1, Hf1. split; assumption.
+Qed.
+
+(* C04 about the translated code (dispersion mode, double storage): the call on any real combination of two (source,
+   background) pairs returns the same combination of the two calls' fields, at every level slot and cell *)
+Theorem code_C04_linear (O : Ops) (L : Laws O) (t : targs O)
+  (q1 q2 q : list (list (C O))) (p1 p2 p s1 s2 : C O) r r1 r2 :
+  let tq := fun q p => mkTArgs O (with_src O (t_a O t) q p) (t_levels O t) (t_prec O t) in
+  wf O (top_args O (tq q1 p1)) -> wf O (top_args O (tq q2 p2)) -> wf O (top_args O (tq q p)) ->
+  same_shape O q q1 -> same_shape O q q2 ->
+  a_footprint O (t_a O t) = false -> t_prec O t = PrecDouble ->
+  (0 < a_nlx O (t_a O t))%nat -> (0 < a_nly O (t_a O t))%nat ->
+  cre O s1 = s1 -> cre O s2 = s2 ->
+  (forall j i, (j < length q)%nat -> (i < length (hd [] q))%nat ->
+     cellq O q j i = cadd O (cmul O s1 (cellq O q1 j i)) (cmul O s2 (cellq O q2 j i))) ->
+  p = cadd O (cmul O s1 p1) (cmul O s2 p2) ->
+  run_top O gen_solver_top (tq q p) = inl r ->
+  run_top O gen_solver_top (tq q1 p1) = inl r1 -> run_top O gen_solver_top (tq q2 p2) = inl r2 ->
+  forall k j i, (k < length (levels_list (t_levels O t)))%nat -> (j < length q)%nat -> (i < length (hd [] q))%nat ->
+    ar_at O (tr_conc O r) (Z.of_nat k) (Z.of_nat j) (Z.of_nat i)
+    = cadd O (cmul O s1 (ar_at O (tr_conc O r1) (Z.of_nat k) (Z.of_nat j) (Z.of_nat i)))
+             (cmul O s2 (ar_at O (tr_conc O r2) (Z.of_nat k) (Z.of_nat j) (Z.of_nat i))) /\
+    ar_at O (tr_flx O r) (Z.of_nat k) (Z.of_nat j) (Z.of_nat i)
+    = cadd O (cmul O s1 (ar_at O (tr_flx O r1) (Z.of_nat k) (Z.of_nat j) (Z.of_nat i)))
+             (cmul O s2 (ar_at O (tr_flx O r2) (Z.of_nat k) (Z.of_nat j) (Z.of_nat i))).
+Proof.
+  cbv zeta. intros Hw1 Hw2 Hw [Hs1a Hs1b] [Hs2a Hs2b] Hfp Hpr Hlx Hly Hr1 Hr2 Hq Hp E E1 E2 k j i Hk Hj Hi.
+  set (a0 := top_args O t).
+  destruct (code_C11_refines_spec O L _ r Hw E) as (rs & Hs & _ & _ & _ & Hc).
+  destruct (code_C11_refines_spec O L _ r1 Hw1 E1) as (rs1 & Hsv1 & _ & _ & _ & Hc1).
+  destruct (code_C11_refines_spec O L _ r2 Hw2 E2) as (rs2 & Hsv2 & _ & _ & _ & Hc2).
+  assert (Hsing : a_single O a0 = false) by (unfold a0; cbn [top_args a_single]; rewrite Hpr; reflexivity).
+  pose proof (C04.C04_linear O L a0 q1 q2 q p1 p2 p s1 s2 rs rs1 rs2 Hw1 Hw2 Hw (conj Hs1a Hs1b) (conj Hs2a Hs2b) Hfp Hsing
+                Hr1 Hr2 Hq Hp Hs Hsv1 Hsv2 k j i Hk Hj Hi) as [Hlc Hlf].
+  destruct (Hc Hlx Hly k j i Hk Hj Hi) as [A B].
+  assert (Hj1 : (j < length q1)%nat) by (rewrite <- Hs1a; exact Hj).
+  assert (Hi1 : (i < length (hd [] q1))%nat) by (rewrite <- Hs1b; exact Hi).
+  assert (Hj2 : (j < length q2)%nat) by (rewrite <- Hs2a; exact Hj).
+  assert (Hi2 : (i < length (hd [] q2))%nat) by (rewrite <- Hs2b; exact Hi).
+  destruct (Hc1 Hlx Hly k j i Hk Hj1 Hi1) as [A1 B1].
+  destruct (Hc2 Hlx Hly k j i Hk Hj2 Hi2) as [A2 B2].
+  rewrite A, B, A1, B1, A2, B2. split; assumption.
 Qed.
